@@ -2369,3 +2369,52 @@ Section GzipAnyOrderFull.
     rewrite <- (app_nil_r (meta_marshal d')). apply meta_roundtrip_any_order; assumption.
   Qed.
 End GzipAnyOrderFull.
+
+(* ================================================================ 11. an acyclic extends chain fits the fuel *)
+
+(* every (file, service) of a program *)
+Definition all_services (P : program) : list (file * service) :=
+  flat_map (fun nf => map (pair (snd nf)) (f_services (snd nf))) P.
+
+Lemma all_services_length P : List.length (all_services P) = List.length (flat_map fdc_services (registry_of P)).
+Proof.
+  unfold all_services, registry_of. induction P as [|[n f] P IH]; [reflexivity|].
+  cbn [flat_map map snd]. rewrite !app_length, IH. f_equal. unfold descriptor_of. cbn [fdc_services]. rewrite !map_length. reflexivity.
+Qed.
+
+Lemma find_by_In {A} (key : A -> bytes) n l x : find_by key n l = Some x -> In x l.
+Proof.
+  induction l as [|y l IH]; cbn [find_by]; [discriminate|]. destruct (beqb (key y) n); [intros [= <-]; left; reflexivity|].
+  intro H. right. apply IH. exact H.
+Qed.
+
+Lemma in_all_services P n f s : prog_file P n = Some f -> In s (f_services f) -> In (f, s) (all_services P).
+Proof.
+  intros Hf Hs. unfold all_services. apply in_flat_map. exists (n, f). split; [apply lookup_In; exact Hf|].
+  cbn [snd]. apply in_map. exact Hs.
+Qed.
+
+(* everything after the head of a chain is a service of the program *)
+Lemma base_chain_tail P f s l : base_chain P f s l -> incl (tl l) (all_services P).
+Proof.
+  induction 1 as [f s He|f s t l Hne Hnd Hfind Hfile Hc IH|f s i gname g n t l Hd Hin Href Hg Ha Hgf Hn Hnd Hext Hfind Hfile Hc IH];
+    cbn [tl]; [intros x []| |].
+  - assert (Hhd : exists r, l = (f, t) :: r) by (destruct Hc; eexists; reflexivity).
+    destruct Hhd as [r ->]. cbn [tl] in IH. intros x [<-|Hx]; [|apply IH; exact Hx].
+    apply (in_all_services P (f_filename f)); [exact Hfile|]. unfold find_service in Hfind. apply (find_by_In _ _ _ _ Hfind).
+  - assert (Hhd : exists r, l = (g, t) :: r) by (destruct Hc; eexists; reflexivity).
+    destruct Hhd as [r ->]. cbn [tl] in IH. intros x [<-|Hx]; [|apply IH; exact Hx].
+    apply (in_all_services P gname); [exact Hgf|]. unfold find_service in Hfind. apply (find_by_In _ _ _ _ Hfind).
+Qed.
+
+(* GetAllMethods along an extends chain without repetition (what the checker guarantees): no
+   premise about the fuel *)
+Theorem get_all_methods_acyclic P f s l :
+  prog_ok P = true -> base_chain P f s l -> NoDup (tl l) ->
+  get_all_methods (registry_of P) (service_desc (f_filename f) s) = chain_methods l.
+Proof.
+  intros HP Hc Hnd. apply (get_all_methods_chain P f s l HP Hc).
+  unfold chain_fuel. rewrite <- all_services_length.
+  pose proof (NoDup_incl_length Hnd (base_chain_tail P f s l Hc)) as Hlen.
+  destruct l as [|x r]; cbn [List.length tl] in *; lia.
+Qed.
